@@ -76,7 +76,9 @@ func init() {
 	reg(&PropDef{
 		ID:    "C12",
 		Level: "proof",
-		Funcs: []string{"tcell.NewEventMouse", "tcell.(*tScreen).clip", "tcell.(*tScreen).buildMouseEvent", "tcell.(*tScreen).parseXtermMouse", "tcell.(*tScreen).parseSgrMouse"},
+		Funcs: []string{"tcell.NewEventMouse", "tcell.(*tScreen).clip", "tcell.(*tScreen).buildMouseEvent", "tcell.(*tScreen).parseXtermMouse", "tcell.(*tScreen).parseSgrMouse",
+			// the driver asks both mouse parsers before it gives a byte away as a key (whatever the introducer was)
+			"tcell.(*tScreen).collectEventsFromInput"},
 		Trusted: []string{"xterm ctlseqs 'Button event tracking' encoding as transcribed in the spec functions xbtn/xmod",
 			"bytes.Buffer methods executed from the standard library's own source"},
 		Assume: []string{"the screen is at least 1x1 when mouse reports are decoded (clip precondition)", "wheel left/right codes (bits 6 and 1 both set) are outside the property"},
